@@ -104,6 +104,13 @@ impl DevCfg {
     pub fn describe(&self) -> String {
         format!("bs={} l2={:?} rb={:?}", 1u32 << self.bs_bits, self.l2, self.rb)
     }
+    pub fn to_json(&self) -> serde_json::Value {
+        serde_json::json!({"bs_bits": self.bs_bits, "l2": self.l2.map(|x| vec![x.0 as usize, x.1]), "rb": self.rb.map(|x| vec![x.0 as usize, x.1])})
+    }
+    pub fn from_json(v: &serde_json::Value) -> DevCfg {
+        let opt = |k: &str| v.get(k).and_then(|x| x.as_array()).map(|a| (a[0].as_u64().unwrap() as u8, a[1].as_u64().unwrap() as usize));
+        DevCfg { bs_bits: v["bs_bits"].as_u64().unwrap_or(9) as u8, l2: opt("l2"), rb: opt("rb") }
+    }
 }
 
 // ---------------------------------------------------------------------
